@@ -294,6 +294,11 @@ func srCase(kind string, key, ct []byte, fail bool, pieces []int, eofWith bool, 
 	if fail && firstErr == io.EOF && oracle == "" {
 		oracle = "clean EOF although the source failed"
 	}
+	// one chunking per plaintext: whatever is accepted through to a clean end — also a payload made by someone who
+	// holds the key (re-flagged, re-split, re-counted chunks) — must be THE encoding of what was released
+	if truth == nil && !fail && firstErr == io.EOF && oracle == "" && len(key) == 32 && !bytes.Equal(ct, canonEncrypt(key, out)) {
+		oracle = fmt.Sprintf("clean EOF on a payload that is not the canonical chunking of the %d bytes released (re-flagged, re-split or extended chunks accepted)", len(out))
+	}
 	taken := src.Taken
 	impl := fmt.Sprintf("%s out=%s taken=%d", strings.Join(tr, ";"), h.Sum(out), taken)
 	line := fmt.Sprintf("sr %s %d %s %s %s", h.Hex(key), C, h.B2s(fail), h.Hex(ct), strings.Join(used, ","))
